@@ -21,7 +21,8 @@ CONSTANTS
     ConsSet,      \* subset of BOOLEAN: is dof 2 constrained?
     MaxSteps,     \* length of step sequences explored
     Emit,         \* BOOLEAN: print every completed behaviour as JSON (for replay)
-    Mutant        \* "none", or the name of a deliberately wrong definition (negative self-tests)
+    Mutant,       \* "none", or the name of a deliberately wrong definition (negative self-tests)
+    MatChange     \* BOOLEAN: may K, C, M be replaced (by another element of Mats) between two steps?
 
 VARIABLES u, v, a,   \* current state (2-vectors of Rat)
           mat,       \* the system [k, c, m]
@@ -129,7 +130,7 @@ StepRec(p, mt, cs, F, g, su, sv, sa) ==
          post |-> <<<<n1[1], n2[1]>>, <<n1[2], n2[2]>>, <<n1[3], n2[3]>>>>,
          evalv |-> <<<<e1[1], e2[1]>>, <<e1[2], e2[2]>>, <<e1[3], e2[3]>>>>,
          res |-> <<Res(p, mt, su, sv, sa, x, 1), Res(p, mt, su, sv, sa, x, 2)>>,
-         coefs |-> Coefs(p)]
+         coefs |-> Coefs(p), matv |-> mt]
 
 ---------------------------------------------------------------------------
 Init ==
@@ -138,15 +139,18 @@ Init ==
     /\ cons \in ConsSet
     /\ hist = <<>>
 
-Step(p, F, g) ==
+(* a step with the matrices mt: when MatChange holds, K, C, M may have been re-assembled since the previous step (a parameter, *)
+(* the density or the damping changed) while the algorithm, its parameters and the step size stay what they were             *)
+Step(p, F, g, mt) ==
     /\ Len(hist) < MaxSteps
-    /\ Regular(p, mat, cons)
-    /\ LET r == StepRec(p, mat, cons, F, g, u, v, a) IN
+    /\ Regular(p, mt, cons)
+    /\ LET r == StepRec(p, mt, cons, F, g, u, v, a) IN
           /\ u' = r.post[1] /\ v' = r.post[2] /\ a' = r.post[3]
-          /\ hist' = Append(hist, r)
-    /\ UNCHANGED <<mat, cons>>
+          /\ hist' = Append(hist, [r EXCEPT !.matv = mt])
+    /\ mat' = mt
+    /\ UNCHANGED cons
 
-Next == \E p \in AlgoPrms, F \in Loads, g \in Gs : Step(p, F, g)
+Next == \E p \in AlgoPrms, F \in Loads, g \in Gs, mt \in (IF MatChange THEN Mats ELSE {mat}) : Step(p, F, g, mt)
 
 Spec == Init /\ [][Next]_vars
 
